@@ -358,6 +358,8 @@ class World:
         self.prop = prop
         self.root = root
         self.files = {}          # relpath -> {"fmt", "opts", "doc", "state"}
+        self.kw_objects = {}     # canonical literal -> built keyword arguments (reused objects)
+        self.extra_pool = []     # literals used so far in this run
         self.violations = []
         self.faults = {}
         self.probes = {"ack_under_armed_fault": 0, "write_failed_loudly": 0,
@@ -367,7 +369,7 @@ class World:
                        "alias_route_checked": 0, "reordered_restriction": 0,
                        "typemap_checked": 0, "non_utf8_encoding": 0, "fault_armed_not_fired": 0,
                        "geojson_escaped_member_name": 0, "geojson_null_geometry": 0,
-                       "read_fault_fired": 0, "failed_overwrite_of_acked_file": 0}
+                       "read_fault_fired": 0, "failed_overwrite_of_acked_file": 0, "failing_cast_read": 0, "reused_keyword_object": 0}
         self.opcount = {}
         self.log = []
         self.abstract = []
@@ -719,7 +721,7 @@ class World:
             return
         path = self.path(rel)
         ropts = self.read_opts(fmt, opts)
-        extra = self.make_extra(fmt, op.get("extra") or {})
+        extra = dict(self.make_extra(fmt, op.get("extra") or {}))
         a, ea = self.call_route(fmt, path, ropts, "class", extra)
         b, eb = self.call_route(fmt, path, ropts, "alias", extra)
         self.probes["alias_route_checked"] += 1
@@ -739,9 +741,15 @@ class World:
                       f"class={describe(a)!r} alias={describe(b)!r}")
 
     def make_extra(self, fmt, lit):
-        """Literal -> keyword arguments (dtype names -> types)."""
-        import numpy as np
-        out = {}
+        """
+        Literal -> keyword arguments (dtype names -> types).  Equal literals give the
+        *same* objects for the whole run: a caller who reuses one `dtypes` mapping or
+        `columns` list for several reads is part of the history.
+        """
+        key = kernel.canon(lit)
+        if key in self.kw_objects:
+            return self.kw_objects[key]
+        out = self.kw_objects[key] = {}
         for k, v in lit.items():
             if k in ("dtypes",):
                 out[k] = {n: {"float": float, "object": object, "str": str, "int": int}[t]
@@ -766,11 +774,21 @@ class World:
         path = self.path(rel)
         ropts = self.read_opts(fmt, opts)
         lit = op.get("extra") or {}
-        extra = self.make_extra(fmt, lit)
+        extra = dict(self.make_extra(fmt, lit))
+        if lit and lit not in self.extra_pool:
+            self.extra_pool.append(copy.deepcopy(lit))
         full, ef = self.call_route(fmt, path, ropts, "class", None)
         if ef is not None:
             return      # C12's business
         res, er = self.call_route(fmt, path, ropts, op.get("route", "class"), extra)
+        # "restricting ... a read never changes what is read": also not what a later
+        # unrestricted read of the same file returns
+        again, ea = self.call_route(fmt, path, ropts, "class", None)
+        if ea is not None or describe(again) != describe(full):
+            kws0 = "+".join(sorted(lit)) or "none"
+            self.viol("C14", "history", f"C14.history|{fmt}|{kws0}|restricted-read-changed-later-full-read",
+                      f"{fmt}: after a read with {lit!r} the unrestricted read of the same file gives "
+                      f"{repr(ea) if ea else describe(again)!r}, before it gave {describe(full)!r}")
         names = lit.get("columns") or lit.get("keys") or []
         if names and names != sorted(names, key=lambda n: self.file_order(fmt, full).index(n)
                                      if n in self.file_order(fmt, full) else -1):
@@ -790,6 +808,8 @@ class World:
         kws = "+".join(sorted(lit)) or "none"
         route = op.get("route", "class")
         if eref is not None:
+            self.probes["failing_cast_read"] += 1
+            self.faults["failing_cast"] = self.faults.get("failing_cast", 0) + 1
             return      # reference itself undefined (e.g. impossible cast): no claim
         if er is not None:
             self.viol("C14", "restrict", f"C14.restrict|{fmt}|{kws}|{route}|raises-{type(er).__name__}",
@@ -1076,6 +1096,7 @@ class Gen:
         self.suffixes = r.sample(SUFFIXES, r.choice([1, 2, 4]))
         self.nrows_max = r.choice([1, 2, 4, 8, 12])
         self.counter = 0
+        self.pending = []
 
     def config(self):
         return {"nops": self.nops, "fault_rate": self.fault_rate, "fault_kinds": self.fault_kinds,
@@ -1113,6 +1134,10 @@ class Gen:
         r = self.rng
         n = r.choice([1, 1, 2, 3, self.nrows_max])
         names = ["id", "s", "f", "b", "d", "t", "i2", "o", "n m", "ünï"]
+        if self.prop == "C14":
+            # few names: the same name carries different types in different files of one run,
+            # so keyword objects reused across files meet columns of another type
+            names = ["id", "s", "f", "n m", "o"]
         if fmt in ("pickle", "npz"):
             dts = ["bool", "int", "float", "str", "date", "datetime", "object"]
         elif fmt == "parquet":
@@ -1317,6 +1342,18 @@ class Gen:
         r = self.rng
         info = self.w.files[p]
         fmt, doc = info["fmt"], info["doc"]
+        if fmt in ("csv", "parquet", "json") and self.w.extra_pool and r.random() < 0.4 and \
+                not (fmt == "csv" and info["opts"].get("header") is False):
+            # the caller reuses an earlier mapping / list object where it fits this file
+            types = {c[0]: c[1] for c in doc["cols"]}
+            fits = [e for e in self.w.extra_pool
+                    if set(e) <= {"columns", "dtypes"}
+                    and all(n in types for n in e.get("columns", []))
+                    and all(n in types and types[n] == "int" for n in e.get("dtypes", {}))
+                    and (not e.get("columns") or all(n in e["columns"] for n in e.get("dtypes", {})))]
+            if fits:
+                self.w.probes["reused_keyword_object"] += 1
+                return copy.deepcopy(r.choice(fits))
         lit = {}
         if fmt in ("csv", "parquet", "json"):
             names = [c[0] for c in doc["cols"]]
@@ -1326,6 +1363,16 @@ class Gen:
                 k = r.randint(1, min(4, len(names)))
                 sub = r.sample(names, k)
                 lit["columns"] = sub
+            strs = [c[0] for c in doc["cols"] if c[1] == "str" and any(v for v in c[2])]
+            if fmt in ("csv", "parquet") and strs and r.random() < 0.12 and \
+                    not (fmt == "csv" and info["opts"].get("header") is False):
+                # a cast that must fail part-way through the read (fault inside a read);
+                # nothing is claimed about this call, but later reads must be unaffected
+                name = r.choice(strs)
+                lit["dtypes"] = {name: "float"}
+                if lit.get("columns") and name not in lit["columns"]:
+                    lit["columns"].append(name)
+                return lit
             if r.random() < 0.4:
                 ints = [c[0] for c in doc["cols"] if c[1] == "int"]
                 if fmt == "csv" and info["opts"].get("header") is False:
@@ -1361,12 +1408,30 @@ class Gen:
         if p is None:
             return self.g_write()
         op = {"op": "restrict", "path": p, "extra": self.extra_for(p, True)}
+        info = self.w.files[p]
+        dts = op["extra"].get("dtypes") or {}
+        types = {c[0]: c[1] for c in info["doc"].get("cols", [])} if info["fmt"] in ("csv", "parquet") else {}
+        if any(types.get(n) == "str" for n in dts) and self.rng.random() < 0.7:
+            # macro: a read that fails part-way, then the caller reuses the very same keyword
+            # objects on a sibling file in which the same names carry integers
+            fmt = info["fmt"]
+            n = len(info["doc"]["cols"][0][2])
+            cols = []
+            for name, dt, vals in info["doc"]["cols"]:
+                cols.append([name, "int", [self.rng.choice([0, 1, 7, 42, -1]) for _ in range(n)]]
+                            if dt == "str" or self.rng.random() < 0.3 else [name, dt, copy.deepcopy(vals)])
+            path2 = self.new_path(fmt)
+            self.pending.append({"op": "write", "fmt": fmt, "path": path2, "opts": {},
+                                 "doc": {"kind": "frame", "cols": cols}})
+            self.pending.append({"op": "restrict", "path": path2, "extra": copy.deepcopy(op["extra"])})
         if self.w.files[p]["fmt"] in ("csv", "parquet", "lod_json", "geojson") and self.rng.random() < 0.4:
             op["route"] = "alias"
         return op
 
     def next_op(self):
         r = self.rng
+        if self.pending:
+            return self.pending.pop(0)
         if self.prop == "C18":
             table = [("geo", 6), ("read", 2), ("truncate", 0.5)]
         elif self.prop == "C14":
